@@ -78,6 +78,13 @@ static void ref_convolution (const src_t *s, const rq_image *im, int64_t px, int
 
 static const pixman_format_code_t src_formats[] = { PIXMAN_a8r8g8b8, PIXMAN_x8r8g8b8, PIXMAN_a8, PIXMAN_r5g6b5, PIXMAN_a8b8g8r8, PIXMAN_a1r5g5b5, PIXMAN_a4, PIXMAN_a1, PIXMAN_x8b8g8r8, PIXMAN_b8g8r8a8, PIXMAN_r8g8b8, PIXMAN_a4r4g4b4 };
 
+/* the exact 8-bit OVER of the library on a8r8g8b8: d' = s + d*(255-sa)/255 with the (t + (t>>8))>>8 rounding, saturating add */
+static uint32_t over8888 (uint32_t sp, uint32_t dp)
+{
+    unsigned ia = 255 - (sp >> 24); uint32_t out = 0;
+    for (int c = 0; c < 4; c++) { unsigned sv = (sp >> (8 * c)) & 0xff, dv = (dp >> (8 * c)) & 0xff, t = dv * ia + 0x80; unsigned v = sv + ((t + (t >> 8)) >> 8); if (v > 255) v = 255; out |= v << (8 * c); }
+    return out;
+}
 static void c08_case (long idx, vf_rng *r)
 {
     rq_request q; memset (&q, 0, sizeof q);
@@ -100,7 +107,10 @@ static void c08_case (long idx, vf_rng *r)
     d->kind = RQ_BITS; d->fmt = PIXMAN_a8r8g8b8; d->w = (int)vf_range (r, 1, 40); d->h = (int)vf_range (r, 1, 6); d->pixseed = vf_next (r);
     /* destination clipped into several runs so that run starts vary */
     if (vf_chance (r, 1, 3)) { d->n_clip = (int)vf_range (r, 1, 4); for (int i = 0; i < d->n_clip; i++) { int x1 = (int)vf_range (r, 0, d->w - 1); d->clip[i].x1 = x1; d->clip[i].x2 = x1 + (int)vf_range (r, 1, 12); d->clip[i].y1 = (int)vf_range (r, 0, d->h - 1); d->clip[i].y2 = d->clip[i].y1 + (int)vf_range (r, 1, 3); } }
-    q.op = PIXMAN_OP_SRC; q.w = d->w; q.h = d->h; q.sx = (int)vf_range (r, -3, 5); q.sy = (int)vf_range (r, -2, 3);
+    q.op = PIXMAN_OP_SRC; q.w = d->w; q.h = d->h;
+    /* OVER (exact 8-bit rule on the a8r8g8b8 destination) for the exactly judged classes: the scaled fast paths have separate OVER routines */
+    int use_over = s->tr_class != TR_PROJECTIVE && (s->filter == PIXMAN_FILTER_NEAREST || s->filter == PIXMAN_FILTER_BILINEAR) && vf_chance (r, 1, 3);
+    if (use_over) q.op = PIXMAN_OP_OVER; q.sx = (int)vf_range (r, -3, 5); q.sy = (int)vf_range (r, -2, 3);
     if (vf_chance (r, 1, 2)) q.sx = q.sy = 0;
     if (wide_src) {
         double sc = (double)s->w / d->w * (0.3 + vf_unit (r));
@@ -110,14 +120,14 @@ static void c08_case (long idx, vf_rng *r)
         s->tr.matrix[1][1] = 65536; s->tr.matrix[1][2] = 0; q.sx = (int)vf_range (r, 0, 2); q.sy = 0;
     }
     /* an a8 mask of zeros and 0xff: masked-out pixels must not disturb the sampling of the others */
-    int masked = vf_chance (r, 1, 4);
+    int masked = vf_chance (r, 1, use_over ? 2 : 4);
     if (masked) {
         q.has_mask = 1; rq_image *m = &q.mask; memset (m, 0, sizeof *m); m->kind = RQ_BITS; m->fmt = PIXMAN_a8; m->w = d->w; m->h = d->h; m->pixseed = vf_next (r); m->filter = PIXMAN_FILTER_NEAREST;
         q.mx = q.my = 0;
     }
     if (!rq_build (&q, r)) return;
-    if (masked) { vf_rng mr; vf_rng_seed (&mr, q.mask.pixseed, 3, 3); int style = (int)(vf_next (&mr) % 3);
-        for (int y = 0; y < d->h; y++) for (int x = 0; x < d->w; x++) { int z = style == 0 ? vf_chance (&mr, 1, 2) : style == 1 ? ((x / 4) & 1) : vf_chance (&mr, 1, 8); vf_put_px (vf_buf_row (&q.mask.buf, y), 8, x, z ? 0 : 0xff); } }
+    if (masked) { vf_rng mr; vf_rng_seed (&mr, q.mask.pixseed, 3, 3); int style = (int)(vf_next (&mr) % 4); int run = (int)vf_range (&mr, 3, 9), phase = (int)vf_range (&mr, 0, 8);
+        for (int y = 0; y < d->h; y++) for (int x = 0; x < d->w; x++) { int z = style == 0 ? vf_chance (&mr, 1, 2) : style == 1 ? ((x / 4) & 1) : style == 2 ? vf_chance (&mr, 1, 8) : (((x + phase + y) / run) & 1);   /* style 3: runs of zeros and of 0xff, of every length and alignment */ vf_put_px (vf_buf_row (&q.mask.buf, y), 8, x, z ? 0 : 0xff); } }
     int overflow_class = s->repeat == PIXMAN_REPEAT_NORMAL && ((int64_t)s->w * 65536 + (s->tr.matrix[0][0] < 0 ? -(int64_t)s->tr.matrix[0][0] : s->tr.matrix[0][0]) > INT32_MAX);
     /* the statement covers transforms whose sample positions stay in the 16.16 range; the library conservatively drops a request
      * when the extents expanded by one pixel (plus the filter footprint) leave it: such requests are not judged here (C04) */
@@ -152,7 +162,7 @@ static void c08_case (long idx, vf_rng *r)
         if (!in) { (void)before; continue; }
         npx++;
         if (masked && vf_get_px (vf_buf_row (&q.mask.buf, y), 8, x) == 0) {
-            if (got != 0) { vf_violation ("C08:masked-out-pixel-not-transparent", "destination (%d,%d) has mask 0 but holds %08x after OP_SRC", x, y, got); reported = 1; break; }
+            if (got != (use_over ? before : 0)) { vf_violation (use_over ? "C08:masked-out-pixel-changed" : "C08:masked-out-pixel-not-transparent", "destination (%d,%d) has mask 0 but holds %08x after %s (before: %08x)", x, y, got, use_over ? "OP_OVER" : "OP_SRC", before); reported = 1; break; }
             continue;
         }
         /* destination pixel centre in source space: exact with 32 fractional bits */
@@ -166,6 +176,7 @@ static void c08_case (long idx, vf_rng *r)
             if (((px - 1) & 0xffff) == 0xffff || ((px) & 0xffff) == 0x8000) nboundary++;
             if (!conv) {
                 uint32_t want = (s->filter == PIXMAN_FILTER_NEAREST) ? ref_nearest (&S, px, py) : ref_bilinear (&S, px, py);
+                if (use_over) want = over8888 (want, before);
                 if (got != want) {
                     snprintf (key, sizeof key, "C08:affine-%s-%s:%s%s", fname, rq_repeat_name (s->repeat), rq_tr_name[s->tr_class], overflow_class ? ":normal-repeat-width-plus-step-beyond-16.16" : "");
                     vf_violation (key, "destination (%d,%d): source position (%lld,%lld)/65536 -> got %08x, reference sampler gives %08x (source %s %dx%d)", x, y, (long long)px, (long long)py, got, want, rp_name (s->fmt), s->w, s->h);
@@ -216,7 +227,7 @@ static void c08_case (long idx, vf_rng *r)
     }
     vf_count ("evaluations", npx);
     vf_count (affine ? (conv ? "pixels_affine_convolution" : "pixels_affine_exact") : "pixels_projective", npx);
-    if (masked) vf_count ("masked_cases", 1);
+    if (masked) vf_count ("masked_cases", 1); if (use_over) vf_count ("over_cases", 1);
     if (wide_src) vf_count ("wide_source_cases", 1);
     vf_count ("samples_on_a_boundary", nboundary); vf_count ("projective_not_judged", nambig);
     vf_label ("filter_repeat_transform", "%s/%s/%s", fname, rq_repeat_name (s->repeat), rq_tr_name[s->tr_class]);
